@@ -35,6 +35,7 @@ type Obligation struct {
 	Output   string
 	SMTBytes int
 	replayConfirmed bool
+	replayFile string
 }
 
 type Exec struct {
